@@ -185,6 +185,9 @@ func interopLegA(r *core.Run, proto *spec.Proto, n int, opt spec.GenOpt) {
 		pd := proto.PDUs[c.Intn(len(proto.PDUs))]
 		opt := opt
 		opt.Shape = c.Pick(10, 1, 1) // also the smallest and the largest image of every type
+		if (i+int(r.Cfg.Index))%6 == 5 {
+			opt.Twin = 1 + int(r.Cfg.Index/6)%977 // two fields of this PDU carry the same value
+		}
 		m := spec.Gen(c, pd, opt)
 		pdu := ToGo(m)
 		fillExtras(c, pdu, pd)
